@@ -48,6 +48,23 @@ NO_TWIN_OK = {
 }
 
 
+def _atoms(text: str, pol: bool = True) -> list[tuple[str, bool]]:
+    """Conjunctive atoms of a guard text with their polarity (``not`` peeled; a negated conjunction is kept whole)."""
+    try:
+        node = ast.parse(text, mode='eval').body
+    except SyntaxError:
+        return [(text, pol)]
+
+    def walk(n: ast.AST, p: bool) -> list[tuple[str, bool]]:
+        if isinstance(n, ast.UnaryOp) and isinstance(n.op, ast.Not):
+            return walk(n.operand, not p)
+        if isinstance(n, ast.BoolOp) and (isinstance(n.op, ast.And) if p else isinstance(n.op, ast.Or)):
+            return [a for v in n.values for a in walk(v, p)]
+        return [(core.src(n), p)]
+
+    return walk(node, pol)
+
+
 def _short(r: Role) -> str:
     return r.short()
 
@@ -84,6 +101,14 @@ def operators(ctx) -> None:
                 lp = e.data['labels']
                 uses_own = isinstance(lp, roles.VPort) and lp.worker in lw or (isinstance(lp, roles.VPub) and lp.kind == 'port' and lp.ref.worker in lw)
                 ctx.check(uses_own, 'C03.T1', fn, 'an operator with its own label actor trains its other actors on the transformed labels (label_publisher switched to the label actor output before they are built)', e.node, key=f'label-switch:{[g for g in e.guards if g.startswith("self.")]}')
+        # T4: a trainer fork conditional on statefulness exists exactly when the actor IS stateful
+        for e in [e for e in events if e.kind == 'train']:
+            for gtext in e.guards:
+                for atom, pol in _atoms(gtext):
+                    if 'stateful' in atom:
+                        ctx.check(pol, 'C03.T4', fn, f'the trainer fork is created for stateful actors (guard atom `{atom}` must hold positively)', e.node, key=f'T4:{atom}')
+                    if atom.endswith('.derived'):
+                        ctx.check(not pol, 'C03.T4', fn, 'a derived (pre-trained) worker gets no trainer fork', e.node, key=f'T4:{atom}')
         # T3 twin rule per trained group
         for e in [e for e in events if e.kind == 'train']:
             g = e.data['worker'].group
@@ -238,6 +263,62 @@ def segment_extend(ctx, se: core.FuncInfo) -> None:
     ctx.check(body == ['tail = Traversal(head).tail(tail).pivot', 'return super().__new__(cls, (head, tail))'], 'C03.trunk', new, 'Segment(head, tail) = (head, the tail traced from head up to the expected one)', new.node, key='Segment.__new__')
 
 
+ATOMIC = 'forml.flow._graph.atomic'
+PORT = 'forml.flow._graph.port'
+
+
+def flow_api(ctx) -> None:
+    """The abstract semantics of the flow API assumed by the role interpreter (fv/roles.py) is what the implementation does:
+    worker.train(f, l) publishes f to the Train port and l to the Label port of that worker; x[i].subscribe(p) publishes p to
+    Apply port i of x; a publication reaches the publisher node's own output index (futures forward to their successor); a
+    trained worker publishes nothing; fork()/fgen() create same-shaped members of the same group; Trunk(...) wraps bare
+    nodes and defaults to futures."""
+    prog = ctx.prog
+    U = shared.stmt_under
+    wt = prog.func(f'{ATOMIC}:Worker.train')
+    f, l = wt.param_names[1:3]
+    U(ctx, 'C03.api', wt, f'{f}.publish(self, port.Train())', [('self.stateful', True), ('any((f.trained for f in self._group))', False)], 'train(): the features publisher feeds the Train port of this worker (stateful, group not trained yet)', 'Worker.train:train')
+    U(ctx, 'C03.api', wt, f'{l}.publish(self, port.Label())', [('self.stateful', True), ('any((f.trained for f in self._group))', False)], 'train(): the labels publisher feeds the Label port of this worker', 'Worker.train:label')
+    wp = prog.func(f'{ATOMIC}:Worker._publish')
+    U(ctx, 'C03.api', wp, 'super()._publish(index, subscription)', [('self.trained', False)], 'only a worker that is not trained publishes', 'Worker._publish')
+    np_ = prog.func(f'{ATOMIC}:Node._publish')
+    ctx.check(any(core.src(n) == 'self._output[index].add(subscription)' for n in core.walk_local(np_.node) if isinstance(n, ast.Expr)), 'C03.api', np_, 'a publication is recorded on the output port it was made from', np_.node, key='Node._publish')
+    wf = prog.func(f'{ATOMIC}:Worker.fork')
+    U(ctx, 'C03.api', wf, 'return Worker(self._group, self.szin, self.szout)', [], 'fork() = a new member of the same group with the same shape', 'Worker.fork')
+    wi = prog.func(f'{ATOMIC}:Worker.__init__')
+    g = wi.param_names[1]
+    U(ctx, 'C03.api', wi, f'self._group: Worker.Group = {g} if isinstance({g}, Worker.Group) else self.Group({g})', [], 'a worker joins the given group or founds a new one around its builder', 'Worker.__init__:group')
+    U(ctx, 'C03.api', wi, 'self._group.add(self)', [], 'a worker registers itself in its group', 'Worker.__init__:add')
+    fg = prog.func(f'{ATOMIC}:Worker.fgen')
+    ys = [core.src(n.value) for n in core.walk_local(fg.inlined().node) if isinstance(n, ast.Yield)]
+    b, i, o = fg.param_names[1:4]
+    ctx.check(len(ys) == 2 and ys[1] == f'{ys[0]}.fork()', 'C03.api', fg, 'fgen() yields one worker and then forks of it', fg.node, key='Worker.fgen')
+    ctx.check(any(core.src(c) == f'cls({b}, {i}, {o})' for c in core.calls_in(fg.node)), 'C03.api', fg, 'fgen() builds the first worker from its own (builder, szin, szout)', fg.node, key='Worker.fgen:first')
+    ss = prog.func(f'{PORT}:Subscriptable.subscribe')
+    U(ctx, 'C03.api', ss, f'{ss.param_names[1]}.publish(self._node, Apply(self._index))', [], 'x[i].subscribe(p): p publishes to Apply port i of node x', 'Subscriptable.subscribe')
+    pp = prog.func(f'{PORT}:Publishable.publish')
+    sub, prt = pp.param_names[1:3]
+    fwd = (f'isinstance({sub}, atomic.Future) and {sub} is not self._node', True)
+    U(ctx, 'C03.api', pp, f'{sub}[{prt}].subscribe(self)', [fwd], 'a publication to a future (other than the publisher\'s own node) is forwarded through the future\'s port', 'publish:forward')
+    U(ctx, 'C03.api', pp, f'self.republish(Subscription({sub}, {prt}))', [(fwd[0], False)], 'otherwise the (subscriber, port) subscription is published from this publisher', 'publish:direct')
+    rp = prog.func(f'{PORT}:Publishable.republish')
+    U(ctx, 'C03.api', rp, f'self._node._publish(self._index, {rp.param_names[1]})', [], 'a publisher publishes from its own node and output index', 'republish')
+    for name, cls_ in (('publisher', 'Publishable'), ('subscriber', 'Subscriptable')):
+        fn = prog.func(f'{PORT}:PubSub.{name}')
+        U(ctx, 'C03.api', fn, f'return {cls_}(self._node, self._index)', [], f'x[i].{name} refers to the same node and index', f'PubSub.{name}')
+    ap = prog.func(f'{PORT}:Applicable.__init__')
+    body = {core.src(n) for n in core.walk_local(ap.node) if isinstance(n, (ast.Assign, ast.AnnAssign))}
+    ctx.check({"self._node: 'flow.Node' = node", 'self._index: int = index'} <= body, 'C03.api', ap, 'port references store (node, index) under their own names', ap.node, key='Applicable.__init__')
+    gi = prog.func(f'{ATOMIC}:Node.__getitem__')
+    U(ctx, 'C03.api', gi, f'return port.PubSub(self, {gi.param_names[1]})', [], 'node[i] refers to port i of that node', 'Node.__getitem__')
+    tn = prog.func(f'{ASSEMBLY}:Trunk.__new__')
+    init = tn.nested('init')
+    m = init.param_names[0]
+    U(ctx, 'C03.api', init, f'{m} = atomic.Future()', [(m, False)], 'a missing mode segment defaults to a fresh future', 'Trunk.init:future')
+    U(ctx, 'C03.api', init, f'{m} = span.Segment({m})', [(f'isinstance({m}, atomic.Node)', True)], 'a bare node becomes a traced segment', 'Trunk.init:segment')
+    U(ctx, 'C03.api', init, f'return {m}', [], 'the cleaned segment is returned', 'Trunk.init:return')
+
+
 SLOTS = ('apply', 'train', 'label')
 DECORATOR_OWN = {  # decorator -> the slots it fills with the decorated actor (docstring of wrap.Operator)
     'apply': {'apply'}, 'train': {'train'}, 'label': {'label'}, 'mapper': {'apply', 'train'},
@@ -286,6 +367,7 @@ def run(ctx) -> None:
     operators(ctx)
     wrap_label_order(ctx)
     wrap_decorators(ctx)
+    flow_api(ctx)
     C12.ensembler(ctx)  # discharges the roles assumed for `folds` in the stacking builders (Fold fields come from the fold's own scope segments)
     primitives(ctx)
     shared.argname_scope(ctx, ('forml.flow._suite', 'forml.flow._graph', 'forml.pipeline', 'forml.evaluation._stage'), floor=2)
